@@ -25,6 +25,8 @@ import Properties.C13
 import EngineModel.Api.CratesV1
 import EngineModel.Db.V2Crates
 import EngineModel.TracksV2.Lens
+import EngineModel.Spec.Dir
+import Proofs.Dir
 
 namespace EngineModel.Properties.C10
 open EngineModel.Spec.Txn EngineModel.Spec.Observe EngineModel.Proofs.Txn
@@ -217,33 +219,138 @@ library can create, the 18 supported ones and 3.0.0. -/
 theorem C10_load_reports_created (s : Schema) : loadCreated s = .loaded s := by
   cases s <;> decide
 
-/-! ### (iii) create_or_load -/
+/-! ### (iii) create_or_load, load and database_exists over the directory model (`Spec/Dir.lean`)
 
-/-- `create_or_load_database` creates exactly when no library exists in the
-directory; then the requested schema is what is open.  When one exists it is
-loaded, not re-created, and its own schema is reported — whatever was requested. -/
-theorem C10_create_or_load (existing : Option Schema) (req : Schema) :
-    ((createOrLoadDir existing req).1 = true ↔ existing = none) ∧
-    (existing = none → (createOrLoadDir existing req).2 = .loaded req) ∧
-    (∀ s, existing = some s → (createOrLoadDir existing req) = (false, .loaded s)) := by
-  cases existing with
-  | none => simp [createOrLoadDir, createOrLoad, loadModel]
-  | some s =>
-    have := C10_load_reports_created s
-    simp [createOrLoadDir, createOrLoad, this]
+The directory model keeps the state of `m.db`, `p.db`, `Database2/`, `Database2/m.db` (absent / valid / zero
+bytes / not a database) and the stamps of valid files; its functions are written from file-system primitives
+that create files (`openCreate`), so the statements below are about the guards of the code. -/
+section dir
+open EngineModel.Spec.Dir EngineModel.Proofs.Dir
 
-/-- The general decision logic (any load outcome): re-export of `C13_create_or_load`. -/
-theorem C10_create_or_load_logic (o : LoadOutcome) (req : Schema) :
-    ((createOrLoad o req).1 = true ↔ o = .database_not_found) ∧
-    (o ≠ .database_not_found → (createOrLoad o req).2 = o) :=
-  C13.C13_create_or_load o req
+/-- **create-or-load creates a library exactly when none exists**: the `created` flag is set iff neither
+`m.db` nor `Database2/m.db` is there — for every directory state (all four presence combinations, any file
+content, with or without `p.db` / `Database2/`) and every requested schema. -/
+theorem C10_create_or_load_iff (d : Dir) (req : Schema) :
+    (createOrLoadAt d req).created = true ↔ (legacyExists d = false ∧ db2Exists d = false) :=
+  createOrLoadAt_created_iff d req
+
+/-- When a library exists (in whatever state) nothing is created or written: the directory is as before and the
+answer is `load_database`'s — the loaded schema, whatever was requested, or its exception. -/
+theorem C10_create_or_load_existing (d : Dir) (req : Schema) (h : legacyExists d = true ∨ db2Exists d = true) :
+    createOrLoadAt d req = ⟨d, false, (loadDatabase d).2⟩ := by
+  have hc : (createOrLoadAt d req).created = false := by
+    cases hcr : (createOrLoadAt d req).created
+    · rfl
+    · have := (C10_create_or_load_iff d req).1 hcr
+      rcases h with h | h <;> simp_all
+  have := createOrLoadAt_not_created d req hc
+  cases hr : createOrLoadAt d req with
+  | mk dir created res => simp_all
+
+/-- Both layouts present (the reviewer's case): `load_database` reports "not found", and create-or-load does
+**not** create — it rethrows, leaving both libraries as they are. -/
+theorem C10_create_or_load_both_layouts (d : Dir) (req : Schema) (h1 : legacyExists d = true) (h2 : db2Exists d = true) :
+    createOrLoadAt d req = ⟨d, false, .throw notFound⟩ := by
+  rw [C10_create_or_load_existing d req (Or.inl h1), (load_notFound_iff d).2 (by rw [h1, h2])]
+
+/-- No library there and creation possible (a 2.x request, or no stray `p.db` that already holds tables / is not a
+database): the requested schema is created, loads back as such (`load_database` and `database_exists` on the
+resulting directory), and a second create-or-load — whatever it requests — loads it instead of creating. -/
+theorem C10_create_or_load_creates (d : Dir) (req req' : Schema) (hwf : d.wf = true)
+    (hl : legacyExists d = false) (h2 : db2Exists d = false)
+    (hp : createsDb2 req = true ∨ d.p = .absent ∨ d.p = .zero) :
+    (createOrLoadAt d req).created = true ∧ (createOrLoadAt d req).res = .ok req ∧
+    (loadDatabase (createOrLoadAt d req).dir).2 = .ok req ∧
+    (databaseExists (createOrLoadAt d req).dir).2 = .ok true ∧
+    createOrLoadAt (createOrLoadAt d req).dir req' = ⟨(createOrLoadAt d req).dir, false, .ok req⟩ := by
+  have hnf : (loadDatabase d).2 = .throw notFound := (load_notFound_iff d).2 (by rw [hl, h2])
+  have hcr : createOrLoadAt d req = ⟨(createDatabase d req).1, true, (createDatabase d req).2⟩ := by
+    unfold createOrLoadAt createOrLoadAtWith
+    simp [loadDatabase_dir, hnf, hl, h2]
+  have key : (createDatabase d req).2 = .ok req ∧ (loadDatabase (createDatabase d req).1).2 = .ok req ∧
+      (legacyExists (createDatabase d req).1 = true ∨ db2Exists (createDatabase d req).1 = true) := by
+    obtain ⟨dir, m, p, dd2, dm, stL, stD⟩ := d
+    have hdet := detect_stampOf req
+    cases hc : createsDb2 req
+    · have hp' : p = .absent ∨ p = .zero := by simpa [hc] using hp
+      have hlt : ¬ Schema.schema_2_18_0.ord ≤ req.ord := by simpa [createsDb2] using hc
+      cases dir <;> cases m <;> cases dd2 <;> cases dm <;> rcases hp' with rfl | rfl <;>
+        simp_all [Dir.wf, legacyExists, db2Exists, FileSt.present, createDatabase, createLegacy, createDb2, openCreate,
+          createIn, loadDatabase, loadDatabaseWith, detectIsDb2, loadLegacyWith, loadLegacySqlite, v2LoadWith,
+          loadDb2Sqlite, Res.bind, requireDb2Schema]
+    · have hle : Schema.schema_2_18_0.ord ≤ req.ord := by simpa [createsDb2] using hc
+      cases dir <;> cases m <;> cases p <;> cases dd2 <;> cases dm <;>
+        simp_all [Dir.wf, legacyExists, db2Exists, FileSt.present, createDatabase, createLegacy, createDb2, openCreate,
+          createIn, loadDatabase, loadDatabaseWith, detectIsDb2, loadLegacyWith, loadLegacySqlite, v2LoadWith,
+          loadDb2Sqlite, Res.bind, requireDb2Schema]
+  obtain ⟨k1, k2, k3⟩ := key
+  have hex := C10_create_or_load_existing (createDatabase d req).1 req' k3
+  refine ⟨by rw [hcr], by rw [hcr]; exact k1, by rw [hcr]; exact k2, ?_, ?_⟩
+  · rw [hcr]
+    show (databaseExistsWith loadDatabase _).2 = _
+    simp [databaseExistsWith, k2, existsAnswer]
+  · rw [hcr]; simp only; rw [hex, k2]
+
+/-- The creation-failure outcome: no library there, a 1.x schema requested, but a stray `p.db` that already holds
+tables or is not a database.  `created` is set, the creator throws, and what it wrote before failing stays
+(an `m.db` appears) — the one case in which create-or-load neither loads nor delivers a library. -/
+theorem C10_create_or_load_creation_fails (d : Dir) (req : Schema) (hwf : d.wf = true)
+    (hl : legacyExists d = false) (h2 : db2Exists d = false)
+    (hreq : createsDb2 req = false) (hp : d.p = .valid ∨ d.p = .garbage) :
+    (createOrLoadAt d req).created = true ∧ (createOrLoadAt d req).res = .throw .sqlite_error ∧
+    (createOrLoadAt d req).dir.m.present = true ∧ (createOrLoadAt d req).dir.p = d.p := by
+  have hnf : (loadDatabase d).2 = .throw notFound := (load_notFound_iff d).2 (by rw [hl, h2])
+  have hcr : createOrLoadAt d req = ⟨(createDatabase d req).1, true, (createDatabase d req).2⟩ := by
+    unfold createOrLoadAt createOrLoadAtWith
+    simp [loadDatabase_dir, hnf, hl, h2]
+  rw [hcr]
+  obtain ⟨dir, m, p, dd2, dm, stL, stD⟩ := d
+  simp only at hp
+  cases dir <;> cases m <;> cases dd2 <;> cases dm <;> rcases hp with rfl | rfl <;>
+    simp_all [Dir.wf, legacyExists, db2Exists, FileSt.present, createDatabase, createLegacy, openCreate, createIn]
+
+/-- What a creator writes (into no directory, or an empty one) is the layout of its generation and loads back as the
+created schema — every schema the library can create, the 18 supported ones and 3.0.0. -/
+theorem C10_dir_load_reports_created (s : Schema) :
+    (loadDatabase (createDatabase noDir s).1).2 = .ok s ∧ (loadDatabase (createDatabase emptyDir s).1).2 = .ok s ∧
+    (createDatabase noDir s).1.shape = (if createsDb2 s then "aav" else "vva") := by
+  cases s <;> decide
+
+/-- `load_database`, `database_exists` (and the 2.x entry points `engine_library::load` / `exists`) never change
+the directory — whatever is in it. -/
+theorem C10_load_exists_keep_directory (d : Dir) :
+    (loadDatabase d).1 = d ∧ (databaseExists d).1 = d ∧ (v2Load d).1 = d ∧ (v2Exists d).1 = d :=
+  ⟨loadDatabase_dir d, databaseExists_dir d, v2Load_dir d, rfl⟩
+
+/-- The code before 1fcc407 (create whenever the loader says "not found") does not satisfy the property: with a
+zero-byte `m.db` next to a valid `Database2/m.db` and a 1.x request it reports `created` and writes a 1.x library
+over the existing files.  Replayed on the real library: corpus/C10/create-over-both-layouts.txt. -/
+theorem C10_create_or_load_old_counterexample :
+    let d : Dir := ⟨true, .zero, .absent, true, .valid, stampOf .schema_1_18_0_os, stampOf .schema_2_21_2⟩
+    db2Exists d = true ∧ (createOrLoadAtOld d .schema_1_18_0_os).created = true ∧
+    (createOrLoadAtOld d .schema_1_18_0_os).dir ≠ d ∧ (createOrLoadAt d .schema_1_18_0_os) = ⟨d, false, .throw notFound⟩ := by
+  decide
+
+end dir
 
 /-! ### non-vacuity -/
 example : loadCreated .schema_1_18_0_desktop = .loaded .schema_1_18_0_desktop ∧
     loadCreated .schema_1_18_0_os = .loaded .schema_1_18_0_os ∧
     loadCreated .schema_2_21_2 = .loaded .schema_2_21_2 := by decide
-example : createOrLoadDir none .schema_2_18_0 = (true, .loaded .schema_2_18_0) := by decide
-example : createOrLoadDir (some .schema_1_6_0) .schema_2_21_2 = (false, .loaded .schema_1_6_0) := by decide
+open EngineModel.Spec.Dir in
+example : (createOrLoadAt noDir .schema_2_18_0).created = true ∧ (createOrLoadAt noDir .schema_2_18_0).res = .ok .schema_2_18_0 ∧
+    (createOrLoadAt noDir .schema_2_18_0).dir.shape = "aav" := by decide
+open EngineModel.Spec.Dir in
+/-- an existing 1.6.0 library, 2.21.2 requested: loaded, reported as 1.6.0, directory untouched -/
+example : createOrLoadAt (createDatabase emptyDir .schema_1_6_0).1 .schema_2_21_2
+    = ⟨(createDatabase emptyDir .schema_1_6_0).1, false, .ok .schema_1_6_0⟩ := by decide
+open EngineModel.Spec.Dir in
+/-- the hypotheses of `C10_create_or_load_creates` / `_creation_fails` are satisfiable -/
+example : emptyDir.wf = true ∧ legacyExists emptyDir = false ∧ db2Exists emptyDir = false ∧ emptyDir.p = .absent := by decide
+open EngineModel.Spec.Dir in
+example : let d : Dir := { emptyDir with p := .valid }
+    d.wf = true ∧ legacyExists d = false ∧ db2Exists d = false ∧
+    (createOrLoadAt d .schema_1_18_0_os).res = .throw .sqlite_error ∧ (createOrLoadAt d .schema_1_18_0_os).dir.shape = "vva" := by decide
 /-- a settled history with a failed call in the middle -/
 example : (⟨[.begin, .write (fun n => some (n + 1)), .commit], some 1, false⟩ : Call Nat).settles := by
   simp [Call.settles, closedShape, closedRun, closedStep, Cmd.kind]
